@@ -280,7 +280,7 @@ def leaf_kind_ok(f, items):
         return k == 'F64'
     if 'ByteSlice' in ty:
         return k == 'BYTES'
-    if ty in ('String', "&'a str") or ty.startswith('Cow<'):
+    if ty in ('String', "&'a str") or re.match(r'^(::)?(\w+::)*Cow<', ty):
         return k == 'STR'
     if ty.startswith('Vec<'):
         return k == 'ARRAY'
